@@ -235,13 +235,14 @@ package service
 //@   trace[C02,client-fin-only-after-target-eof] before io.Copy transport.StreamConn.CloseWrite
 //@   trace[C02,no-copy-after-fin] notafter io.Copy transport.StreamConn.CloseWrite
 //@   trace[C02,this-direction-closes-client-write-only] each transport.StreamConn.CloseWrite satisfies $recv == clientConn
-//@   trace[C02,this-direction-closes-target-read-only] each transport.StreamConn.CloseRead satisfies $recv == evres("transport.StreamDialer.DialStream", 0)
+//@   trace[C02,C06,this-direction-closes-target-read-only] each transport.StreamConn.CloseRead satisfies $recv == evres("transport.StreamDialer.DialStream", 0)
 //@   trace[C02,C18,waits-for-client-direction] exactly 1 recv when evres("transport.StreamDialer.DialStream", 1) == nil
 //@   trace[C15,dial-failure-status] each transport.StreamDialer.DialStream satisfies $res1 != nil ==> result != nil
 //@   trace[C02,target-closed-at-end] exactly 1 transport.StreamConn.Close when evres("transport.StreamDialer.DialStream", 1) == nil
 //@   trace[C02,one-relay-goroutine] exactly 1 go:service.proxyConnection$1 when evres("transport.StreamDialer.DialStream", 1) == nil
 //@   trace[C05,one-dial] exactly 1 transport.StreamDialer.DialStream
 //@   trace[C11,context-only-for-dialing] each transport.StreamDialer.DialStream satisfies $arg0 == ctx
+//@   trace[C11,relay-not-tied-to-context] each * satisfies uses(ctx) ==> evis("transport.StreamDialer.DialStream")
 
 // client-to-target direction of the relay
 //@ func proxyConnection$1
